@@ -19,7 +19,10 @@ def comp_value(max_len=40):
     sized = st.sampled_from(sizes).flatmap(lambda n: st.binary(min_size=n, max_size=n))
     # values made of one repeated character that URI schemes treat specially ('...', '%%', '==', ...)
     runs = st.tuples(st.sampled_from(list(b'..%=/~ ')), st.integers(1, min(max_len, 6))).map(lambda t: bytes([t[0]]) * t[1])
-    return st.one_of(small, small, small, small, small, small, sized, sized, st.binary(max_size=max_len), st.binary(max_size=max_len), runs)
+    # text that looks like syntax of some URI scheme
+    schemes = st.sampled_from([b'ndn:', b'NDN:', b'ndn:a', b'http:', b'a:b', b'ndn', b':'])
+    return st.one_of(small, small, small, small, small, small, sized, sized, st.binary(max_size=max_len), st.binary(max_size=max_len), runs,
+                     schemes)
 
 
 def _number_value():
